@@ -108,6 +108,7 @@ def _si_replay(cfg, values, doc):
         changed = not (cfg['old'] == 'val' and cfg['new'] == 'val' and old == new) and not (cfg['old'] == 'None' and new is None)
         exp_undo = [(d, old if cfg['old'] == 'val' else None, new)] if changed else []
         ok = ok and len(undo) == len(exp_undo) and all(u[1:] == e[1:] for u, e in zip(undo, exp_undo))
+    if cfg['fn'] == 'update_simple_index' and conflict: ok = ok and undo == []          # a refused change leaves nothing to undo
     return {'reproduced': not ok, 'initial_map': repr(before), 'final_map': repr(d), 'expected_map': repr(want), 'raised': raised, 'undo': repr([u[1:] for u in undo])}
 
 
